@@ -27,8 +27,8 @@ def check(tier, seed, replay=None):
         run.finish()
     rng = SplitMix64(seed).fork("C08")
     encs = encodings(data, cases)
-    step = 1 if tier == "thorough" else 4
-    encs = [e for k, e in enumerate(encs) if k % step == 2 and wire.hexlen(e[3]) <= 300]
+    step = 2 if tier == "thorough" else 4
+    encs = [e for k, e in enumerate(encs) if k % step == 2 % step and wire.hexlen(e[3]) <= 300]
     sp = wirerun.write_model_schema(s, "c08")
     b = wirerun.build_package(s, 1, "cover")
     # fault-free runs give the number of Write calls
